@@ -27,40 +27,40 @@ Definition prims_ok (P : prims) : Prop :=
 Ltac use_ok H :=
   destruct H as (H1 & H2 & H3 & H4 & H5 & H6 & H7 & H8 & H9 & H10 & H11).
 
-Lemma jws_deserialize_compact_ok P g reg ka v : prims_ok P ->
+Lemma jws_deserialize_compact_ok P g reg ka v : prims_ok P -> g_kid_repr g = true ->
   needs_jws_compact g = true -> jws_reg_wf reg = true -> safe (jws_deserialize_compact g P reg ka v).
 Proof. intro H. use_ok H. apply jws_deserialize_compact_safe; assumption. Qed.
 
-Lemma jwt_decode_jws_ok P g reg ka v : prims_ok P ->
+Lemma jwt_decode_jws_ok P g reg ka v : prims_ok P -> g_kid_repr g = true ->
   needs_jws_compact g = true -> g_rec_claims g = true -> jws_reg_wf reg = true ->
   safe (jwt_decode_jws g P reg ka v).
 Proof. intro H. use_ok H. apply jwt_decode_jws_safe; assumption. Qed.
 
-Lemma r7797_deserialize_compact_ok P g reg0 reg7 ka v : prims_ok P ->
+Lemma r7797_deserialize_compact_ok P g reg0 reg7 ka v : prims_ok P -> g_kid_repr g = true ->
   needs_7797_compact g = true -> jws_reg_wf reg0 = true -> jws_reg_wf reg7 = true ->
   safe (r7797_deserialize_compact g P reg0 reg7 ka v).
 Proof. intro H. use_ok H. apply r7797_deserialize_compact_safe; assumption. Qed.
 
-Lemma jws_deserialize_json_ok P g reg ka value : prims_ok P ->
+Lemma jws_deserialize_json_ok P g reg ka value : prims_ok P -> g_kid_repr g = true ->
   needs_jws_json g = true -> jws_reg_wf reg = true -> jws_documented_shape value = true ->
   safe (jws_deserialize_json g P reg ka value).
 Proof. intro H. use_ok H. apply jws_deserialize_json_safe; assumption. Qed.
 
-Lemma r7797_deserialize_json_ok P g reg0 reg7 ka value : prims_ok P ->
+Lemma r7797_deserialize_json_ok P g reg0 reg7 ka value : prims_ok P -> g_kid_repr g = true ->
   needs_7797_json g = true -> jws_reg_wf reg0 = true -> jws_reg_wf reg7 = true ->
   jws_documented_shape value = true -> safe (r7797_deserialize_json g P reg0 reg7 ka value).
 Proof. intro H. use_ok H. apply r7797_deserialize_json_safe; assumption. Qed.
 
-Lemma jwe_decrypt_compact_ok P g reg ka sa v : prims_ok P ->
+Lemma jwe_decrypt_compact_ok P g reg ka sa v : prims_ok P -> g_kid_repr g = true ->
   needs_jwe_compact g = true -> jwe_reg_wf2 reg = true -> safe (jwe_decrypt_compact g P reg ka sa v).
 Proof. intro H. use_ok H. eapply jwe_decrypt_compact_safe; eassumption. Qed.
 
-Lemma jwt_decode_jwe_ok P g reg ka v : prims_ok P ->
+Lemma jwt_decode_jwe_ok P g reg ka v : prims_ok P -> g_kid_repr g = true ->
   needs_jwe_compact g = true -> g_rec_claims g = true -> jwe_reg_wf2 reg = true ->
   safe (jwt_decode_jwe g P reg ka v).
 Proof. intro H. use_ok H. eapply jwt_decode_jwe_safe; eassumption. Qed.
 
-Lemma jwe_decrypt_json_ok P g reg ka sa data : prims_ok P ->
+Lemma jwe_decrypt_json_ok P g reg ka sa data : prims_ok P -> g_kid_repr g = true ->
   needs_jwe_json g = true -> jwe_reg_wf2 reg = true -> jwe_documented_shape data = true ->
   safe (jwe_decrypt_json g P reg ka sa data).
 Proof. intro H. use_ok H. eapply jwe_decrypt_json_safe; eassumption. Qed.
@@ -70,7 +70,7 @@ Lemma all_guards_suffice :
   needs_jws_compact all_guards = true /\ needs_7797_compact all_guards = true /\
   needs_jws_json all_guards = true /\ needs_7797_json all_guards = true /\
   needs_jwe_compact all_guards = true /\ needs_jwe_json all_guards = true /\
-  g_rec_claims all_guards = true.
+  g_rec_claims all_guards = true /\ g_kid_repr all_guards = true.
 Proof. vm_compute. auto 10. Qed.
 
 (* the library's own registries are well-formed worlds (ties the theorems to gen/Tables.v) *)
@@ -149,7 +149,7 @@ Definition tok (s : string) : cinput := CBytes (asc s).
 
 (* all guards except number i *)
 Definition all_but (i : nat) : guards :=
-  guards_of (map (fun j => negb (Nat.eqb i j)) (seq 0 22)).
+  guards_of (map (fun j => negb (Nat.eqb i j)) (seq 0 23)).
 
 
 Definition allowed_exn_of {A} (m : res A) : bool :=
@@ -341,13 +341,27 @@ Proof. vm_compute. auto. Qed.
 
 (* callable keys: what guess_key raises *)
 Lemma callable_keys :
-  guess_key (ACall (AKey k_oct)) (Ok (PDict [])) = Ok k_oct /\
-  guess_key (ACall (AText k_oct)) (Ok (PDict [])) = Ok k_oct /\
-  guess_key (ACall AOther) (Ok (PDict [])) = Err EValue /\
-  guess_key (ACall (ACall (AKey k_oct))) (Ok (PDict [])) = Err EValue /\
-  guess_key AOther (Ok (PDict [])) = Err EValue /\
-  guess_key (ACall (AKeySet [])) (Ok (PDict [])) = Err (EJose InvalidKeyIdError).
+  guess_key all_guards (ACall (AKey k_oct)) (Ok (PDict [])) = Ok k_oct /\
+  guess_key all_guards (ACall (AText k_oct)) (Ok (PDict [])) = Ok k_oct /\
+  guess_key all_guards (ACall AOther) (Ok (PDict [])) = Err EValue /\
+  guess_key all_guards (ACall (ACall (AKey k_oct))) (Ok (PDict [])) = Err EValue /\
+  guess_key all_guards AOther (Ok (PDict [])) = Err EValue /\
+  guess_key all_guards (ACall (AKeySet [])) (Ok (PDict [])) = Err (EJose InvalidKeyIdError).
 Proof. vm_compute. auto 10. Qed.
+
+(* 22: a KeySet and a "kid" nested deeper than repr can follow -> RecursionError while formatting the
+   message of InvalidKeyIdError (the JWE paths select the key before the header is validated) *)
+Fixpoint nest (n : nat) : pv := match n with O => PList [] | Datatypes.S k => PList [nest k] end.
+Definition flat_jwe_deep_kid : pv :=
+  D [("protected", T "e30"); ("iv", T "AAAAAAAAAAAAAAAA"); ("ciphertext", T ""); ("tag", T "");
+     ("unprotected", D [("kid", nest 101)])].
+Lemma r22_deep_kid :
+  jwe_documented_shape flat_jwe_deep_kid = true /\
+  is_err (jwe_decrypt_json (all_but 22) (W (D [("alg", T "dir"); ("enc", T "A128GCM")])) default_jwe_reg
+            (AKeySet [k_oct; k_ec]) SNone flat_jwe_deep_kid) ERuntime = true /\
+  is_err (jwe_decrypt_json all_guards (W (D [("alg", T "dir"); ("enc", T "A128GCM")])) default_jwe_reg
+            (AKeySet [k_oct; k_ec]) SNone flat_jwe_deep_kid) (EJose InvalidKeyIdError) = true.
+Proof. vm_compute. auto. Qed.
 
 (* ------------------------------------------------------------------ *)
 (* every guard is necessary                                             *)
@@ -377,7 +391,8 @@ Definition escape_witnesses : list bool := [
   escapes (validate_use_ops (all_but 18) (D [("use", PList []); ("key_ops", PList [])]));
   escapes (jwe_decrypt_compact (all_but 19) (W pu_header) jwe_all (AKey k_ec) SNone (tok "e30..AAAAAAAAAAAAAAAA.."));
   escapes (jwe_decrypt_compact (all_but 20) (W pu_header_skid) jwe_all (AKey k_ec) (SSet [k_ec; k_rsa_kid]) (tok "e30..AAAAAAAAAAAAAAAA.."));
-  escapes (jwe_decrypt_compact (all_but 21) (W pu_header) jwe_all (AKey k_rsa) (SKey k_ec) (tok "e30..AAAAAAAAAAAAAAAA.."))
+  escapes (jwe_decrypt_compact (all_but 21) (W pu_header) jwe_all (AKey k_rsa) (SKey k_ec) (tok "e30..AAAAAAAAAAAAAAAA.."));
+  escapes (jwe_decrypt_json (all_but 22) (W (D [("alg", T "dir"); ("enc", T "A128GCM")])) default_jwe_reg (AKeySet [k_oct; k_ec]) SNone flat_jwe_deep_kid)
 ].
 
 Lemma guards_are_necessary :
